@@ -79,7 +79,15 @@ class FakeTransport(asyncio.Transport):
         self.lost = True
         self.closing = True
         if self.protocol is not None:
-            self.protocol.connection_lost(exc)
+            try:
+                self.protocol.connection_lost(exc)
+            except (SystemExit, KeyboardInterrupt):
+                raise
+            except BaseException as e:
+                # asyncio runs connection_lost from call_soon: an exception is handed to the loop's exception
+                # handler and otherwise ignored - it must not unwind the harness
+                self.events.append(("callback-error", repr(e), self.loop.time()))
+                self.loop.call_exception_handler({"message": "exception in connection_lost", "exception": e})
 
     # -- harness side
     def attach(self, protocol):
@@ -255,6 +263,11 @@ class FakeTcp(asyncio.Transport):
         try:
             if self.protocol is not None:
                 self.protocol.connection_lost(exc)
+        except (SystemExit, KeyboardInterrupt):
+            raise
+        except BaseException as e:
+            self.events.append(("callback-error", repr(e), self.loop.time()))
+            self.loop.call_exception_handler({"message": "exception in connection_lost", "exception": e})
         finally:
             if self.on_close:
                 self.on_close(exc)
